@@ -89,6 +89,22 @@ Theorem C14_resume :
   map fst (skipn (length (cbl fresh)) (cbl r1)) = map fst (skipn (length (cbl mid)) (cbl r2)).
 Proof. intros H1 H2 H3 c mid fresh rs. exact (resume Cfg St Rnd Pt Acc step point Key proj inject H1 H2 H3 c mid fresh rs). Qed.
 
+(* ... at ANY checkpoint position of an uninterrupted run rs1 ++ rs2 started from any sampler s: the entries the resumed
+   sampler adds are exactly those the uninterrupted run records after position |rs1| *)
+Theorem C14_checkpoint_any_position :
+  (forall k s, proj (inject k s) = k) ->
+  (forall c s1 s2 r, proj s1 = proj s2 ->
+     proj (fst (step c s1 r)) = proj (fst (step c s2 r)) /\ snd (step c s1 r) = snd (step c s2 r)) ->
+  (forall s1 s2, proj s1 = proj s2 -> point s1 = point s2) ->
+  forall (c : Cfg) (s fresh : sampler) (rs1 rs2 : list Rnd),
+  let full := sample c s (rs1 ++ rs2) in
+  let mid := sample c s rs1 in
+  let res := sample c (load St Pt Acc Key inject (proj (st mid)) fresh) rs2 in
+  smp full = smp mid ++ skipn (length (smp fresh)) (smp res) /\
+  length (skipn (length (smp fresh)) (smp res)) = length rs2 /\
+  proj (st res) = proj (st full).
+Proof. intros H1 H2 H3 c s fresh rs1 rs2. exact (checkpoint_any_position Cfg St Rnd Pt Acc step point Key proj inject H1 H2 H3 c s fresh rs1 rs2). Qed.
+
 (* stateless interface, _sample(N, Nb) with N + Nb - 1 transitions: exactly N entries are returned; entry i is
    state Nb + i of the chain that starts at x0 (so the burn-in discarded is exactly the first Nb states and,
    without burn-in, the chain begins with the initial point) -- for loops that do not alias their columns *)
@@ -126,6 +142,7 @@ Print Assumptions C14_order.
 Print Assumptions C14_append_only.
 Print Assumptions C14_callback_once.
 Print Assumptions C14_resume.
+Print Assumptions C14_checkpoint_any_position.
 Print Assumptions C14_burnin_slice.
 Print Assumptions C14_legacy_callback.
 Print Assumptions C14_gibbs_continue.
